@@ -337,6 +337,9 @@ def run(budget=1500, jobs=8, only=None, extra=(), with_str=True, with_mask=True,
            'wall_s': round(time.time() - t0, 1)}
     if with_mask:
         out['maskset'] = gate_maskset()
+        from .stubs import selftest_quote
+        out['quote_stub'] = selftest_quote()
+        out['cases'] += out['quote_stub']['cases']
     if with_str:
         out['str_methods'] = str_res
         out['cases'] += sum(v['cases'] for v in str_res.values())
